@@ -95,14 +95,13 @@ example : mSum wF1 wF1In = some
     ([⟨"a", "x", "COIN", 15⟩, ⟨"a", "y", "COIN", 15⟩, ⟨"a2", "y", "COIN", 28⟩, ⟨"world", "y", "COIN", 57⟩,
       ⟨"world", "z", "COIN", 55⟩, ⟨"x", "a2", "COIN", 18⟩, ⟨"a", "a2", "COIN", 5⟩],
      [("k", "COIN 3")], [("a2", "tag", "3/4")]) := by decide +kernel
-example : iSum wF1 wF1In = some
-    ([⟨"a", "x", "COIN", 15⟩, ⟨"a", "y", "COIN", 15⟩, ⟨"a2", "y", "COIN", 28⟩, ⟨"world", "y", "COIN", 112⟩,
-      ⟨"x", "a2", "COIN", 18⟩, ⟨"a", "a2", "COIN", 5⟩], [("k", "COIN 3")], [("a2", "tag", "3/4")]) := by
-  decide +kernel
+example : iSum wF1 wF1In = mSum wF1 wF1In := by decide +kernel
 -- … and one where both fail (insufficient funds)
 example : InF1 wF1Poor (coinInput [("a", 50), ("a2", 8)]) = true := by decide +kernel
 example : mSum wF1Poor (coinInput [("a", 50), ("a2", 8)]) = none := by decide +kernel
 example : iSum wF1Poor (coinInput [("a", 50), ("a2", 8)]) = none := by decide +kernel
+-- the witnesses below are all compiled by the machine
+example : compiles wKept = true ∧ compiles wSaveOd = true ∧ compiles wPortions = true := by decide +kernel
 
 /-! ## The full statement is false -/
 
@@ -110,7 +109,7 @@ example : iSum wF1Poor (coinInput [("a", 50), ("a2", 8)]) = none := by decide +k
     the machine keeps carol's funds, the interpreter alice's. -/
 theorem machine_interp_agree_full_counterexample_kept : ¬ machine_interp_agree_full := by
   intro h
-  have := h wKept wKeptIn ⟨_, (by decide +kernel : typecheck wKept = .ok [])⟩
+  have := h wKept wKeptIn (by decide +kernel)
   revert this; unfold SameResult; decide +kernel
 
 theorem kept_witness_machine : mSum wKept wKeptIn =
@@ -124,7 +123,7 @@ theorem kept_witness_interp : iSum wKept wKeptIn =
     balance is −97 (insufficient funds), the interpreter's is 0 (posts 17). -/
 theorem machine_interp_agree_full_counterexample_save_overdraft : ¬ machine_interp_agree_full := by
   intro h
-  have := h wSaveOd wSaveOdIn ⟨_, (by decide +kernel : typecheck wSaveOd = .ok [])⟩
+  have := h wSaveOd wSaveOdIn (by decide +kernel)
   revert this; unfold SameResult; decide +kernel
 
 theorem save_overdraft_witness_machine : mSum wSaveOd wSaveOdIn = none := by decide +kernel
@@ -136,7 +135,7 @@ theorem save_overdraft_witness_interp : iSum wSaveOd wSaveOdIn =
     rejects the allotment at run time, the interpreter allocates (a negative `remaining`). -/
 theorem machine_interp_agree_full_counterexample_portions : ¬ machine_interp_agree_full := by
   intro h
-  have := h wPortions wPortionsIn ⟨_, (by decide +kernel : typecheck wPortions = .ok [("p", .portion)])⟩
+  have := h wPortions wPortionsIn (by decide +kernel)
   revert this; unfold SameResult; decide +kernel
 
 theorem portions_witness_machine : mSum wPortions wPortionsIn = none := by decide +kernel
@@ -145,58 +144,65 @@ theorem portions_witness_interp : iSum wPortions wPortionsIn =
     some ([⟨"world", "a", "COIN", 50⟩, ⟨"world", "b", "COIN", 25⟩, ⟨"world", "c", "COIN", 25⟩], [], []) := by
   decide +kernel
 
-/-- A cap that evaluates negative: refused by the machine, read as 0 by the interpreter. -/
-theorem machine_interp_agree_full_counterexample_negative_cap :
-    mSum wNegCap wNegCapIn = none ∧
-    iSum wNegCap wNegCapIn = some ([⟨"b", "d", "COIN", 7⟩, ⟨"world", "d", "COIN", 13⟩], [], []) := by
-  decide +kernel
+/-- A cap that evaluates negative (`max [COIN 5] - [COIN 9] from @a`): refused by the machine,
+    read as 0 by the interpreter. -/
+theorem negative_cap_witness_machine : mSum wNegCap wNegCapIn = none := by decide +kernel
+
+theorem negative_cap_witness_interp : iSum wNegCap wNegCapIn =
+    some ([⟨"b", "d", "COIN", 7⟩, ⟨"world", "d", "COIN", 13⟩], [], []) := by decide +kernel
 
 /-- An account variable holding `world` in source position: refused by the machine. -/
-theorem machine_interp_agree_full_counterexample_world_variable :
-    mSum wWorldVar wWorldVarIn = none ∧
-    iSum wWorldVar wWorldVarIn = some ([⟨"world", "d", "COIN", 20⟩], [], []) := by
-  decide +kernel
+theorem world_variable_witness_machine : mSum wWorldVar wWorldVarIn = none := by decide +kernel
+
+theorem world_variable_witness_interp : iSum wWorldVar wWorldVarIn =
+    some ([⟨"world", "d", "COIN", 20⟩], [], []) := by decide +kernel
 
 /-- `save` of more than the balance: the machine's tracked balance goes to −20, the
     interpreter's stops at 0; of the 25 received afterwards 5 resp. 25 can be sent on. -/
-theorem machine_interp_agree_full_counterexample_save_clamp :
-    mSum wSaveClamp wSaveClampIn = some ([⟨"world", "a", "COIN", 25⟩, ⟨"a", "d", "COIN", 5⟩], [], []) ∧
-    iSum wSaveClamp wSaveClampIn = some ([⟨"world", "a", "COIN", 25⟩, ⟨"a", "d", "COIN", 25⟩], [], []) := by
-  decide +kernel
+theorem save_clamp_witness_machine : mSum wSaveClamp wSaveClampIn =
+    some ([⟨"world", "a", "COIN", 25⟩, ⟨"a", "d", "COIN", 5⟩], [], []) := by decide +kernel
+
+theorem save_clamp_witness_interp : iSum wSaveClamp wSaveClampIn =
+    some ([⟨"world", "a", "COIN", 25⟩, ⟨"a", "d", "COIN", 25⟩], [], []) := by decide +kernel
 
 /-- `save [COIN 5] + [COIN 3]`: the machine saves 5 (leftmost atom), the interpreter 8. -/
-theorem machine_interp_agree_full_counterexample_save_expression :
-    mSum wSaveExpr wSaveExprIn = some ([⟨"a", "d", "COIN", 14⟩], [], []) ∧
-    iSum wSaveExpr wSaveExprIn = none := by
-  decide +kernel
+theorem save_expression_witness_machine : mSum wSaveExpr wSaveExprIn =
+    some ([⟨"a", "d", "COIN", 14⟩], [], []) := by decide +kernel
 
-/-- The portion literal `010/100`: 1/8 for the machine (octal), 1/10 for the interpreter. -/
-theorem machine_interp_agree_full_counterexample_octal_portion :
-    mSum wOctal (coinInput []) = some ([], [("k", "1/8")], []) ∧
-    iSum wOctal (coinInput []) = some ([], [("k", "1/10")], []) := by
-  decide +kernel
+theorem save_expression_witness_interp : iSum wSaveExpr wSaveExprIn = none := by decide +kernel
+
+/-- The portion literal `010/100`: 8/100 for the machine (octal numerator), 1/10 for the
+    interpreter. -/
+theorem octal_portion_witness_machine : mSum wOctal (coinInput []) =
+    some ([], [("k", "2/25")], []) := by decide +kernel
+
+theorem octal_portion_witness_interp : iSum wOctal (coinInput []) =
+    some ([], [("k", "1/10")], []) := by decide +kernel
 
 /-- A destination maximum in another asset after the funds are exhausted: only the machine
     looks at it. -/
-theorem machine_interp_agree_full_counterexample_asset_mismatch :
-    mSum wLateAsset (coinInput []) = none ∧
-    iSum wLateAsset (coinInput []) = some ([⟨"world", "b", "COIN", 10⟩], [], []) := by
-  decide +kernel
+theorem asset_mismatch_witness_machine : mSum wLateAsset (coinInput []) = none := by decide +kernel
+
+theorem asset_mismatch_witness_interp : iSum wLateAsset (coinInput []) =
+    some ([⟨"world", "b", "COIN", 10⟩], [], []) := by decide +kernel
 
 /-- `balance(@world, COIN)`: the machine reads the store (negative: refused), the interpreter
     never queries `@world` and yields 0. -/
-theorem machine_interp_agree_full_counterexample_balance_world :
-    mSum wBalWorld wBalWorldIn = none ∧
-    iSum wBalWorld wBalWorldIn = some ([], [("k", "COIN 0")], []) := by
-  decide +kernel
+theorem balance_world_witness_machine : mSum wBalWorld wBalWorldIn = none := by decide +kernel
 
-/-- Front ends: an undeclared variable is refused by the machine only; `"007"` is a number
-    for the interpreter only. -/
-theorem machine_interp_agree_full_counterexample_front_ends :
-    mSum wPlain wExtraIn = none ∧
-    iSum wPlain wExtraIn = some ([⟨"world", "d", "COIN", 10⟩], [], []) ∧
-    mSum wNumFmt wNumFmtIn = none ∧
-    iSum wNumFmt wNumFmtIn = some ([], [("k", "7")], []) := by
-  decide +kernel
+theorem balance_world_witness_interp : iSum wBalWorld wBalWorldIn =
+    some ([], [("k", "COIN 0")], []) := by decide +kernel
+
+/-- Front ends: an undeclared variable is refused by the machine only … -/
+theorem extraneous_variable_witness_machine : mSum wPlain wExtraIn = none := by decide +kernel
+
+theorem extraneous_variable_witness_interp : iSum wPlain wExtraIn =
+    some ([⟨"world", "d", "COIN", 10⟩], [], []) := by decide +kernel
+
+/-- … and `"007"` is a number for the interpreter only. -/
+theorem variable_format_witness_machine : mSum wNumFmt wNumFmtIn = none := by decide +kernel
+
+theorem variable_format_witness_interp : iSum wNumFmt wNumFmtIn =
+    some ([], [("k", "7")], []) := by decide +kernel
 
 end Ledger.C26i
